@@ -94,7 +94,7 @@ func C04(env *Env) {
 			cpuI := iterFrom(pat.Const("0"), &cl)
 			ver := pat.Op(flow.OpIndex, "", tee, pat.Const("1"))
 			start := pat.OneOf(
-				pat.Op(flow.OpIte, "", pat.OneOf(pat.Bin("<", pat.Const("0"), ver), pat.Bin("!=", pat.Const("0"), ver)), pat.Const("2"), pat.Const("0")),
+				pat.Op(flow.OpIte, "", pat.OneOf(pat.Bin("<", pat.Const("0"), ver), pat.Bin("!=", pat.Const("0"), ver), pat.Bin("<=", pat.Const("1"), ver)), pat.Const("2"), pat.Const("0")),
 				pat.Op(flow.OpIte, "", pat.Bin("==", pat.Const("0"), ver), pat.Const("0"), pat.Const("2")))
 			tdxI := iterFrom(start, &tl)
 			// the same loop written over all indices with the skipped prefix passed over:
